@@ -34,6 +34,13 @@ _want_spacing = {
 
 _want_spacing.update(dict.fromkeys(PlyLexer.keywords, (2, 2)))
 
+# user defined literals are emitted by the lexer as UD_<literal type>
+_want_spacing.update(
+    dict.fromkeys(
+        (f"UD_{t}" for t in LexerTokenStream._user_defined_literal_start), (2, 2)
+    )
+)
+
 
 @dataclass
 class Token:
